@@ -64,10 +64,20 @@ def body(rng, b: B, ind: str, is_test: bool, is_async: bool, n: list):
             b.add("%slet c%d = src_%d.clone();" % (ind, k, k), "clone-unnecessary", **c)
             b.add("%sconsume(c%d);" % (ind, k))
         elif r < 0.61:
-            b.add("%slet src_%d = make_%d();" % (ind, k, k))
-            b.add("%slet c%d = src_%d.clone();" % (ind, k, k))
-            b.add("%sconsume(c%d);" % (ind, k))
-            b.add("%sconsume(src_%d);" % (ind, k))
+            if rng.random() < 0.4:
+                # the source is used afterwards - as the bare tail expression of the block (its value), not inside a statement
+                b.add("%slet keep_%d = {" % (ind, k))
+                b.add("%s    let src_%d = make_%d();" % (ind, k, k))
+                b.add("%s    let c%d = src_%d.clone();" % (ind, k, k))
+                b.add("%s    consume(c%d);" % (ind, k))
+                b.add("%s    src_%d" % (ind, k))
+                b.add("%s};" % ind)
+                b.add("%sconsume(keep_%d);" % (ind, k))
+            else:
+                b.add("%slet src_%d = make_%d();" % (ind, k, k))
+                b.add("%slet c%d = src_%d.clone();" % (ind, k, k))
+                b.add("%sconsume(c%d);" % (ind, k))
+                b.add("%sconsume(src_%d);" % (ind, k))
         elif r < 0.7:
             pre = rng.choice(["std::fs::", "fs::"])
             b.add("%slet f%d = %s%s(\"path_%d\");" % (ind, k, pre, rng.choice(FS_FUNCS), k), "fs", **c)
